@@ -17,7 +17,11 @@
 #ifndef VF_VAL
 #define VF_VAL 6
 #endif
+#ifdef VF_BC_THREE
+#define VF_CAP (20 + 3 * (2 + VF_VAL) + 4)
+#else
 #define VF_CAP (20 + 2 * (2 + 16) + 4)
+#endif
 size_t vf_rad_span, vf_rad_k, vf_rad_z, vf_rad_len_old, vf_rad_blk, vf_rad_m;
 uint8_t vf_rad_old;
 
@@ -107,6 +111,32 @@ void harness(void) {
 #else
 	VF_ASSERT(k >= 16 || m[22 + k] == ((k < l1) ? v1.b[k] : 0), "(1) User-Password: value then zero padding to 16");
 	VF_ASSERT(k >= 16 || m[o2 + 2 + k] == 0, "(1) Message-Authenticator placeholder: 16 zero bytes");
+#endif
+#ifdef VF_BC_THREE
+	/* a third attribute: same claims one step further (-DVF_BC_THREE, generic types only) */
+	{
+		VF_NONDET_BYTES(v3, 16);
+		VF_NONDET(uint8_t, t3); VF_NONDET(uint8_t, l3);
+		VF_ASSUME(l3 <= VF_VAL && t3 != 2 && t3 != 3 && t3 != 80);
+		size_t o3 = 0, f3 = 0, dl3 = 0;
+		uint8_t ty3 = 0, *dp3 = NULL;
+		r = radius_pkt_attr_add(pkt, cap, &size, t3, l3, v3.b, &o3);
+		if (r != 0) {
+			VF_ASSERT(VF_RAD_LEN(m) == o2 + 2 + e2, "attr_add #3 refused: length untouched");
+			goto done;
+		}
+		VF_ASSERT(o3 == o2 + 2 + e2 && size == o3 + 2 + l3 && VF_RAD_LEN(m) == size && size <= cap, "attr_add #3: offset, new length == old + 2 + len <= buffer");
+		VF_ASSERT(m[o3] == t3 && m[o3 + 1] == 2 + l3 && (k >= l3 || m[o3 + 2 + k] == v3.b[k]), "(1) attribute #3: type, 2 + len, value");
+		VF_ASSERT(m[20] == t1 && m[21] == 2 + e1 && m[o2] == t2 && m[o2 + 1] == 2 + e2 && (k >= l1 || m[22 + k] == v1.b[k]) && (k >= l2 || m[o2 + 2 + k] == v2.b[k]),
+		    "(1) attributes #1, #2 untouched by the third add");
+		r = radius_pkt_chk(pkt, size);
+		VF_ASSERT(r == 0 || code == 12 || t1 == 79 || t2 == 79 || t3 == 79, "(2) pkt_chk accepts the built packet");
+		r = radius_pkt_attr_get_data_ptr_raw(pkt, o3, &ty3, &dp3, &dl3);
+		VF_ASSERT(r == 0 && ty3 == t3 && dp3 == m + o3 + 2 && dl3 == l3, "(3) third attribute: type, value pointer, length");
+		r = radius_pkt_attr_find(pkt, o3 + 2 + l3, t3, &f3);
+		VF_ASSERT(r == VF_RAD_ENOATTR, "(3) nothing after the last attribute");
+		goto done;
+	}
 #endif
 	/* (2) */
 	r = radius_pkt_chk(pkt, size);
